@@ -256,6 +256,15 @@ fn one_case_l(rng: &mut Rng, sink: &mut Sink) {
                     (n, cid)
                 };
                 let e = router.insert(Signpost::from(cid), queue.clone());
+                if let Some(prev) = reg_owner.get(&n).cloned() {
+                    // often the superseded connection is torn down next, its three parts in a random order
+                    if rng.chance(1, 2) {
+                        let mut parts = vec![80u64, 67, 85];
+                        for i in (1..parts.len()).rev() { let j = rng.below(i as u64 + 1) as usize; parts.swap(i, j); }
+                        for pc in parts { forced.push_back((pc, prev)); }
+                        sink.branch("teardown:superseded");
+                    }
+                }
                 reg_owner.insert(n.clone(), conns.len());
                 Some((n, e))
             } else { None };
